@@ -304,6 +304,7 @@ type replayCase struct {
 	ExpectValid bool            `json:"expect_valid"`
 	Reasons     []string        `json:"violated_rules"`
 	Origin      string          `json:"origin"`
+	What        string          `json:"origin_class"` // label of the rejected-valid key
 	Skip        []bool          `json:"skip_statements"`
 }
 
@@ -349,6 +350,48 @@ func (t *tally) flush() {
 	st.Unlock()
 }
 
+// Violations are collected and handed to the run at the end: per key the
+// smallest failing document (shortest JSON, then lexicographically first) is
+// the one written out, so the replay artefact does not depend on scheduling.
+type found struct {
+	what  string
+	rc    replayCase
+	count int
+}
+
+var (
+	foundMu sync.Mutex
+	founds  = map[string]*found{}
+)
+
+func report(key, what string, rc replayCase) {
+	foundMu.Lock()
+	defer foundMu.Unlock()
+	f := founds[key]
+	if f == nil {
+		founds[key] = &found{what, rc, 1}
+		return
+	}
+	f.count++
+	a, b := string(rc.Document)+string(rc.Document2), string(f.rc.Document)+string(f.rc.Document2)
+	if len(a) < len(b) || (len(a) == len(b) && a < b) || (a == b && rc.Origin < f.rc.Origin) {
+		f.what, f.rc = what, rc
+	}
+}
+
+func flushViolations(r *hx.Run) {
+	keys := make([]string, 0, len(founds))
+	for k := range founds {
+		keys = append(keys, k)
+	}
+	sort.Strings(keys)
+	for _, k := range keys {
+		for i := 0; i < founds[k].count; i++ {
+			r.Violation(k, founds[k].what, founds[k].rc)
+		}
+	}
+}
+
 // judge runs the real code on one document and compares with the expected verdict.
 // what: class of the origin used in the rejected-valid key.
 func judge(r *hx.Run, t *tally, kind string, o *trustpolicy.OCIDocument, b *trustpolicy.BlobDocument, expectValid bool, reasons []string, skip []bool, what, origin string) {
@@ -359,7 +402,7 @@ func judge(r *hx.Run, t *tally, kind string, o *trustpolicy.OCIDocument, b *trus
 		} else {
 			raw, _ = json.Marshal(b)
 		}
-		return replayCase{Kind: kind, Document: raw, ExpectValid: expectValid, Reasons: reasons, Origin: origin, Skip: skip}
+		return replayCase{Kind: kind, Document: raw, ExpectValid: expectValid, Reasons: reasons, Origin: origin, What: what, Skip: skip}
 	}
 	var err, verr error
 	if kind == "oci" {
@@ -373,16 +416,16 @@ func judge(r *hx.Run, t *tally, kind string, o *trustpolicy.OCIDocument, b *trus
 	why := strings.Join(reasons, "+")
 	switch {
 	case err == nil && !expectValid:
-		r.Violation(kind+"/accepted-invalid:"+why, fmt.Sprintf("Validate accepted a %s document that violates %v (%s): %s", kind, reasons, origin, rc().Document), rc())
+		report(kind+"/accepted-invalid:"+why, fmt.Sprintf("Validate accepted a %s document that violates %v (%s): %s", kind, reasons, origin, rc().Document), rc())
 	case err != nil && expectValid:
-		r.Violation(kind+"/rejected-valid:"+what, fmt.Sprintf("Validate rejected a well-formed %s document (%s) with %q: %s", kind, origin, err, rc().Document), rc())
+		report(kind+"/rejected-valid:"+what, fmt.Sprintf("Validate rejected a well-formed %s document (%s) with %q: %s", kind, origin, err, rc().Document), rc())
 	case err == nil:
 		t.out[kind+":accepted-valid"]++
 	default:
 		t.out[kind+":rejected-invalid"]++
 	}
 	if (err == nil) != (verr == nil) {
-		r.Violation(kind+"/verifier-differs-from-validate:"+map[bool]string{true: "verifier-accepts", false: "verifier-rejects"}[verr == nil],
+		report(kind+"/verifier-differs-from-validate:"+map[bool]string{true: "verifier-accepts", false: "verifier-rejects"}[verr == nil],
 			fmt.Sprintf("Validate: %v, NewVerifierWithOptions: %v (%s)", err, verr, origin), rc())
 	}
 	if err == nil || verr == nil {
@@ -405,9 +448,9 @@ func judge(r *hx.Run, t *tally, kind string, o *trustpolicy.OCIDocument, b *trus
 			isSkip := i < len(skip) && skip[i]
 			switch {
 			case lerr != nil || lv == nil:
-				r.Violation(kind+"/accepted-statement-without-level", fmt.Sprintf("statement %d of an accepted document: GetVerificationLevel: %v (%s)", i, lerr, origin), rc())
+				report(kind+"/accepted-statement-without-level", fmt.Sprintf("statement %d of an accepted document: GetVerificationLevel: %v (%s)", i, lerr, origin), rc())
 			case !isSkip && lv.Enforcement[trustpolicy.TypeIntegrity] != trustpolicy.ActionEnforce:
-				r.Violation(kind+"/accepted-statement-not-enforcing-integrity", fmt.Sprintf("statement %d (level %q, not skip) of an accepted document has integrity=%q (%s)", i, sv.VerificationLevel, lv.Enforcement[trustpolicy.TypeIntegrity], origin), rc())
+				report(kind+"/accepted-statement-not-enforcing-integrity", fmt.Sprintf("statement %d (level %q, not skip) of an accepted document has integrity=%q (%s)", i, sv.VerificationLevel, lv.Enforcement[trustpolicy.TypeIntegrity], origin), rc())
 			case isSkip:
 				t.out[kind+":statement-level-skip"]++
 			default:
@@ -1181,12 +1224,18 @@ func enumBoth(r *hx.Run) {
 			t.evals++
 			or, _ := json.Marshal(od)
 			br, _ := json.Marshal(bd)
-			rc := replayCase{Kind: "both", Document: or, Document2: br, ExpectValid: want, Reasons: append(append([]string{}, ro...), rb...)}
+			rc := replayCase{Kind: "both", Document: or, Document2: br, ExpectValid: want}
+			for _, x := range ro {
+				rc.Reasons = append(rc.Reasons, "oci:"+x)
+			}
+			for _, x := range rb {
+				rc.Reasons = append(rc.Reasons, "blob:"+x)
+			}
 			switch {
 			case err == nil && !want:
-				r.Violation("both/verifier-accepted-invalid:"+strings.Join(rc.Reasons, "+"), fmt.Sprintf("NewVerifierWithOptions accepted oci %s blob %s", or, br), rc)
+				report("both/verifier-accepted-invalid:"+strings.Join(rc.Reasons, "+"), fmt.Sprintf("NewVerifierWithOptions accepted oci %s blob %s", or, br), rc)
 			case err != nil && want:
-				r.Violation("both/verifier-rejected-valid", fmt.Sprintf("NewVerifierWithOptions: %v; oci %s blob %s", err, or, br), rc)
+				report("both/verifier-rejected-valid", fmt.Sprintf("NewVerifierWithOptions: %v; oci %s blob %s", err, or, br), rc)
 			case err == nil:
 				t.out["both:accepted-valid"]++
 			default:
@@ -1204,9 +1253,14 @@ func replay(r *hx.Run) {
 		r.Infra("replay: %v", err)
 		return
 	}
-	before := r.Violations()
 	t := newTally()
-	defer func() { r.Eval(t.evals) }()
+	defer func() {
+		r.Eval(t.evals)
+		flushViolations(r)
+		if r.Violations() == 0 {
+			fmt.Printf("replay: holds (expected valid=%v %v)\n", c.ExpectValid, c.Reasons)
+		}
+	}()
 	switch c.Kind {
 	case "oci":
 		var o trustpolicy.OCIDocument
@@ -1214,14 +1268,14 @@ func replay(r *hx.Run) {
 			r.Infra("replay: %v", err)
 			return
 		}
-		judge(r, t, "oci", &o, nil, c.ExpectValid, c.Reasons, c.Skip, "replayed", c.Origin)
+		judge(r, t, "oci", &o, nil, c.ExpectValid, c.Reasons, c.Skip, c.What, c.Origin)
 	case "blob":
 		var b trustpolicy.BlobDocument
 		if err := json.Unmarshal(c.Document, &b); err != nil {
 			r.Infra("replay: %v", err)
 			return
 		}
-		judge(r, t, "blob", nil, &b, c.ExpectValid, c.Reasons, c.Skip, "replayed", c.Origin)
+		judge(r, t, "blob", nil, &b, c.ExpectValid, c.Reasons, c.Skip, c.What, c.Origin)
 	case "both":
 		var o trustpolicy.OCIDocument
 		var b trustpolicy.BlobDocument
@@ -1231,15 +1285,15 @@ func replay(r *hx.Run) {
 		}
 		err := newVerifier(&o, &b)
 		t.evals++
-		if (err == nil) != c.ExpectValid {
-			r.Violation("both/replayed", fmt.Sprintf("NewVerifierWithOptions: %v, expected valid=%v %v", err, c.ExpectValid, c.Reasons), c)
+		switch {
+		case err == nil && !c.ExpectValid:
+			report("both/verifier-accepted-invalid:"+strings.Join(c.Reasons, "+"), fmt.Sprintf("NewVerifierWithOptions accepted oci %s blob %s", c.Document, c.Document2), c)
+		case err != nil && c.ExpectValid:
+			report("both/verifier-rejected-valid", fmt.Sprintf("NewVerifierWithOptions: %v; oci %s blob %s", err, c.Document, c.Document2), c)
 		}
 	default:
 		r.Infra("replay: unknown kind %q", c.Kind)
 		return
-	}
-	if r.Violations() == before {
-		fmt.Printf("replay: holds (expected valid=%v %v)\n", c.ExpectValid, c.Reasons)
 	}
 }
 
@@ -1264,7 +1318,8 @@ func main() {
 		enumAssembly(r, kind)
 	}
 	enumBoth(r)
-	// hand the totals to the run (sorted, single-threaded)
+	// hand the violations and totals to the run (sorted, single-threaded)
+	flushViolations(r)
 	r.Eval(st.evals)
 	classes := make([]string, 0, len(st.out))
 	for k := range st.out {
